@@ -72,7 +72,8 @@ pub fn expr_to_source(spanned_expr: &SpannedExpr) -> String {
         }
         Expr::Lambda { args, body } => {
             let args_str: Vec<String> = args.iter().map(lambda_arg_to_source).collect();
-            format!("({}) => {}", args_str.join(", "), expr_to_source(body))
+            let body_str = parens_if(lambda_body_needs_parens(body), expr_to_source(body));
+            format!("({}) => {}", args_str.join(", "), body_str)
         }
         Expr::Conditional {
             condition,
@@ -115,17 +116,18 @@ pub fn expr_to_source(spanned_expr: &SpannedExpr) -> String {
         Expr::Output { expr } => format!("output {}", expr_to_source(expr)),
         Expr::Call { func, args } => {
             let args_str: Vec<String> = args.iter().map(expr_to_source).collect();
-            let func_str = match &func.node {
-                // Wrap lambdas in parentheses when used in call position
-                Expr::Lambda { .. } => format!("({})", expr_to_source(func)),
-                _ => expr_to_source(func),
-            };
+            // Wrap lambdas and operators in parentheses when used in call position
+            let func_str = parens_if(needs_parens_in_postfix(func), expr_to_source(func));
             format!("{}({})", func_str, args_str.join(", "))
         }
         Expr::Access { expr, index } => {
-            format!("{}[{}]", expr_to_source(expr), expr_to_source(index))
+            let base_str = parens_if(needs_parens_in_postfix(expr), expr_to_source(expr));
+            format!("{}[{}]", base_str, expr_to_source(index))
         }
-        Expr::DotAccess { expr, field } => format!("{}.{}", expr_to_source(expr), field),
+        Expr::DotAccess { expr, field } => {
+            let base_str = parens_if(needs_parens_in_postfix(expr), expr_to_source(expr));
+            format!("{}.{}", base_str, field)
+        }
         Expr::BinaryOp { op, left, right } => {
             let op_str = binary_op_to_source(op);
             let left_str = if needs_parens_in_binop(op, left, true) {
@@ -142,11 +144,13 @@ pub fn expr_to_source(spanned_expr: &SpannedExpr) -> String {
         }
         Expr::UnaryOp { op, expr } => {
             let op_str = unary_op_to_source(op);
-            format!("{}{}", op_str, expr_to_source(expr))
+            let operand = parens_if(needs_parens_in_unary(expr), expr_to_source(expr));
+            format!("{}{}", op_str, operand)
         }
         Expr::PostfixOp { op, expr } => {
             let op_str = postfix_op_to_source(op);
-            format!("{}{}", expr_to_source(expr), op_str)
+            let operand = parens_if(needs_parens_in_postfix(expr), expr_to_source(expr));
+            format!("{}{}", operand, op_str)
         }
         Expr::Spread(expr) => format!("...{}", expr_to_source(expr)),
     }
@@ -210,43 +214,117 @@ fn binary_op_to_source(op: &BinaryOp) -> &'static str {
     }
 }
 
+/// Binding strength of prefix operators (`-`, `!`): tighter than every binary operator.
+const PREFIX_LEVEL: u8 = u8::MAX - 2;
+/// Binding strength of the postfix operators (`!`, call, index, field access).
+const POSTFIX_LEVEL: u8 = u8::MAX - 1;
+/// Literals, names, lists, records, do-blocks.
+const PRIMARY_LEVEL: u8 = u8::MAX;
+
+/// How tightly the outermost construct of an expression binds, on the scale of `operator_info`
+fn binding_level(expr: &SpannedExpr) -> u8 {
+    match &expr.node {
+        Expr::BinaryOp { op, .. } => operator_info(op).0,
+        Expr::UnaryOp { .. } | Expr::Spread(_) => PREFIX_LEVEL,
+        Expr::PostfixOp { .. }
+        | Expr::Call { .. }
+        | Expr::Access { .. }
+        | Expr::DotAccess { .. } => POSTFIX_LEVEL,
+        _ => PRIMARY_LEVEL,
+    }
+}
+
+/// What the printed form of an expression does with an operator that follows it
+#[derive(PartialEq)]
+enum Tail {
+    /// Ends in a name, literal, bracket or postfix operator
+    Closed,
+    /// Ends in a lambda body, which absorbs every following operator except `via`, `into`
+    /// and `where` (grammar rule `lambda_expression`)
+    Lambda,
+    /// Ends in the else-branch of a conditional or the value of an assignment, which absorb
+    /// every following operator
+    Greedy,
+}
+
+fn tail(expr: &SpannedExpr) -> Tail {
+    match &expr.node {
+        Expr::Lambda { body, .. } if lambda_body_needs_parens(body) => Tail::Lambda,
+        Expr::Lambda { body, .. } if tail(body) != Tail::Greedy => Tail::Lambda,
+        Expr::Lambda { .. }
+        | Expr::Conditional { .. }
+        | Expr::Assignment { .. }
+        | Expr::Output { .. } => Tail::Greedy,
+        Expr::BinaryOp { op, right, .. } if !needs_parens_in_binop(op, right, false) => tail(right),
+        Expr::UnaryOp { expr, .. } if !needs_parens_in_unary(expr) => tail(expr),
+        _ => Tail::Closed,
+    }
+}
+
 /// Check if a child expression needs parentheses when used in a binary operation
 pub fn needs_parens_in_binop(
     parent_op: &BinaryOp,
     child_expr: &SpannedExpr,
     is_left: bool,
 ) -> bool {
-    match &child_expr.node {
-        Expr::BinaryOp { op: child_op, .. } => {
-            let (parent_prec, parent_assoc) = operator_info(parent_op);
-            let (child_prec, _child_assoc) = operator_info(child_op);
+    let (parent_prec, parent_assoc) = operator_info(parent_op);
+    let child_level = binding_level(child_expr);
 
-            // Need parentheses if child has lower precedence
-            if child_prec < parent_prec {
-                return true;
-            }
+    // Need parentheses if child binds less tightly
+    if child_level < parent_prec {
+        return true;
+    }
 
-            // For same precedence, need parentheses on right side for:
-            // - Right-associative operators (e.g., power)
-            // - Non-associative operators (subtraction, division)
-            if child_prec == parent_prec && !is_left {
-                match parent_assoc {
-                    Assoc::Right => return true,
-                    Assoc::Left => {
-                        // For left-associative operators, right side needs parens for non-associative ones
-                        if matches!(
-                            parent_op,
-                            BinaryOp::Subtract | BinaryOp::Divide | BinaryOp::Modulo
-                        ) {
-                            return true;
-                        }
-                    }
-                }
-            }
+    // For same precedence, need parentheses on the side the operator does not associate to
+    // (`a - (b - c)`, `a and (b or c)`, `(a ^ b) ^ c`)
+    if child_level == parent_prec && is_left == (parent_assoc == Assoc::Right) {
+        return true;
+    }
 
-            false
+    // A left operand ending in a lambda body, an else-branch or an assignment value would
+    // absorb the operator
+    is_left
+        && match tail(child_expr) {
+            Tail::Closed => false,
+            Tail::Lambda => !matches!(
+                parent_op,
+                BinaryOp::Via | BinaryOp::Into | BinaryOp::Where
+            ),
+            Tail::Greedy => true,
+        }
+}
+
+/// Check if the operand of a prefix operator (`-x`, `!x`) needs parentheses
+pub fn needs_parens_in_unary(child_expr: &SpannedExpr) -> bool {
+    binding_level(child_expr) < PREFIX_LEVEL
+}
+
+/// Check if the operand of a postfix operator, call, index or field access needs parentheses
+pub fn needs_parens_in_postfix(child_expr: &SpannedExpr) -> bool {
+    binding_level(child_expr) < POSTFIX_LEVEL || tail(child_expr) != Tail::Closed
+}
+
+/// Check if a lambda body needs parentheses: a body never extends over `via`, `into` or `where`
+/// (grammar rule `lambda_expression`), so one of them outside of parentheses needs them
+pub fn lambda_body_needs_parens(body: &SpannedExpr) -> bool {
+    match &body.node {
+        Expr::BinaryOp { op, left, right } => {
+            matches!(op, BinaryOp::Via | BinaryOp::Into | BinaryOp::Where)
+                || (!needs_parens_in_binop(op, left, true) && lambda_body_needs_parens(left))
+                || (!needs_parens_in_binop(op, right, false) && lambda_body_needs_parens(right))
+        }
+        Expr::UnaryOp { expr, .. } => {
+            !needs_parens_in_unary(expr) && lambda_body_needs_parens(expr)
         }
         _ => false,
+    }
+}
+
+fn parens_if(needed: bool, source: String) -> String {
+    if needed {
+        format!("({})", source)
+    } else {
+        source
     }
 }
 
@@ -313,10 +391,11 @@ pub fn expr_to_source_with_scope(
             for arg in args {
                 filtered_scope.shift_remove(arg.get_name());
             }
+            let body_str = expr_to_source_with_scope(body, &filtered_scope);
             format!(
                 "({}) => {}",
                 args_str.join(", "),
-                expr_to_source_with_scope(body, &filtered_scope)
+                parens_if(lambda_body_needs_parens(body), body_str)
             )
         }
         Expr::Conditional {
@@ -380,11 +459,13 @@ pub fn expr_to_source_with_scope(
                 UnaryOp::Not => "!",
                 UnaryOp::Invert => "~",
             };
-            format!("{}{}", op_str, expr_to_source_with_scope(expr, scope))
+            let operand = expr_to_source_with_scope(expr, scope);
+            format!("{}{}", op_str, parens_if(needs_parens_in_unary(expr), operand))
         }
         Expr::PostfixOp { op, expr } => {
             let op_str = postfix_op_to_source(op);
-            format!("{}{}", expr_to_source_with_scope(expr, scope), op_str)
+            let operand = expr_to_source_with_scope(expr, scope);
+            format!("{}{}", parens_if(needs_parens_in_postfix(expr), operand), op_str)
         }
         Expr::Spread(expr) => format!("...{}", expr_to_source_with_scope(expr, scope)),
         Expr::Assignment { ident, value } => {
@@ -398,24 +479,22 @@ pub fn expr_to_source_with_scope(
                 .iter()
                 .map(|e| expr_to_source_with_scope(e, scope))
                 .collect();
-            let func_str = match &func.node {
-                // Wrap lambdas in parentheses when used in call position
-                Expr::Lambda { .. } => {
-                    format!("({})", expr_to_source_with_scope(func, scope))
-                }
-                _ => expr_to_source_with_scope(func, scope),
-            };
+            // Wrap lambdas and operators in parentheses when used in call position
+            let func_str = expr_to_source_with_scope(func, scope);
+            let func_str = parens_if(needs_parens_in_postfix(func), func_str);
             format!("{}({})", func_str, args_str.join(", "))
         }
         Expr::Access { expr, index } => {
+            let base_str = expr_to_source_with_scope(expr, scope);
             format!(
                 "{}[{}]",
-                expr_to_source_with_scope(expr, scope),
+                parens_if(needs_parens_in_postfix(expr), base_str),
                 expr_to_source_with_scope(index, scope)
             )
         }
         Expr::DotAccess { expr, field } => {
-            format!("{}.{}", expr_to_source_with_scope(expr, scope), field)
+            let base_str = expr_to_source_with_scope(expr, scope);
+            format!("{}.{}", parens_if(needs_parens_in_postfix(expr), base_str), field)
         }
     }
 }
